@@ -6,6 +6,8 @@ import (
 	"crypto/tls"
 	"encoding/base64"
 	"fmt"
+	"net"
+	"os"
 	"strings"
 	"time"
 
@@ -344,8 +346,112 @@ func runAlone(cfg childCfg, cv *conv) (string, string) {
 	return "", ""
 }
 
+// runSteal reproduces the UDP registration take-over between two sessions of one IP address (not
+// fixed in /repo): a publisher records over UDP; a second connection from the same address announces,
+// sets up the SAME client ports, records and tears down; afterwards the publisher's packets are no
+// longer delivered (its registrations were overwritten and then deleted).
+func runSteal(out *workerOut) {
+	cfg := blastTimeouts(childCfg{Handlers: "DASPRUGT", UDP: true})
+	cfg.ReadMs, cfg.IdleMs = 6000, 6000 // the victim must not time out during the experiment
+	out.evals++
+	out.kinds["corpus:udp-registration-take-over"]++
+	ch, err := startChild(cfg)
+	if err != nil {
+		out.fails = append(out.fails, fail{"child-start-failed", cfgJSON(cfg), err.Error()})
+		return
+	}
+	defer ch.cleanup()
+	defer ch.kill()
+	// the publisher's UDP sockets (RTP port must be even)
+	var pc net.PacketConn
+	port := 0
+	for p := 42000 + 2*(os.Getpid()%2000); p < 60000; p += 2 {
+		c, e1 := net.ListenPacket("udp", fmt.Sprintf("127.0.0.1:%d", p))
+		if e1 != nil {
+			continue
+		}
+		pc, port = c, p
+		break
+	}
+	if pc == nil {
+		return
+	}
+	defer pc.Close()
+	sdp1 := "v=0\r\no=- 0 0 IN IP4 127.0.0.1\r\ns=x\r\nc=IN IP4 0.0.0.0\r\nt=0 0\r\n" +
+		"m=video 0 RTP/AVP 96\r\na=rtpmap:96 H264/90000\r\na=fmtp:96 packetization-mode=1\r\na=control:trackID=0\r\n"
+	tr := fmt.Sprintf("Transport: RTP/AVP;unicast;client_port=%d-%d;mode=record", port, port+1)
+	publish := func(path string, teardown bool) (*sconn, bool) {
+		c, e1 := openConn(ch.port, false, carPlain, 10*time.Second)
+		if e1 != nil {
+			return nil, false
+		}
+		u := "rtsp://127.0.0.1/" + path
+		s1, _, _ := c.request(rq("ANNOUNCE", u, "CSeq: 1", "Content-Type: application/sdp", "\x00body:"+sdp1), 10*time.Second)
+		s2, _, _ := c.request(rq("SETUP", u+"/trackID=0", "CSeq: 2", tr), 10*time.Second)
+		s3, _, _ := c.request(rq("RECORD", u, "CSeq: 3", "Session: "+c.session), 10*time.Second)
+		ok := s1 == 200 && s2 == 200 && s3 == 200
+		if teardown {
+			c.request(rq("TEARDOWN", u, "CSeq: 4", "Session: "+c.session), 10*time.Second)
+			c.close()
+		}
+		return c, ok
+	}
+	send := func(seq0 int) {
+		dst := &net.UDPAddr{IP: net.IPv4(127, 0, 0, 1), Port: ch.udpPort}
+		for i := 0; i < 8; i++ {
+			pkt := []byte{0x80, 96, byte((seq0 + i) >> 8), byte(seq0 + i), 0, 0, byte(i), 0, 0x11, 0x22, 0x33, 0x44, 5, 1, 2, 3}
+			pc.WriteTo(pkt, dst)
+			time.Sleep(5 * time.Millisecond)
+		}
+		time.Sleep(300 * time.Millisecond)
+	}
+	victim, ok := publish("victim", false)
+	if !ok {
+		if victim != nil {
+			victim.close()
+		}
+		out.fails = append(out.fails, fail{"corpus-setup-failed", cfgJSON(cfg), "the victim publisher could not RECORD over UDP"})
+		return
+	}
+	defer victim.close()
+	send(100)
+	st1, err := ch.counts()
+	if err != nil || st1.RecvPackets == 0 {
+		out.fails = append(out.fails, fail{"corpus-setup-failed", cfgJSON(cfg), fmt.Sprintf("the victim's packets were not delivered in the first place (%d, %v)", st1.RecvPackets, err)})
+		return
+	}
+	if _, ok = publish("hostile", true); !ok {
+		out.kinds["corpus:udp-take-over-refused"]++ // the server refused the second session: the defect is gone
+	}
+	send(200)
+	st2, err := ch.counts()
+	if err != nil {
+		return
+	}
+	if st2.RecvPackets == st1.RecvPackets {
+		out.fails = append(out.fails, fail{"udp-registration-taken-over-by-same-ip-session",
+			fmt.Sprintf("%s client_port=%d-%d", cfgJSON(cfg), port, port+1),
+			fmt.Sprintf("a recording UDP session received %d packets; after another connection from the same address had been set up with the same client ports, recorded and torn down, it received none of 8 further packets (registrations in the server: rtp %d, rtcp %d)",
+				st1.RecvPackets, st2.UDPRTP, st2.UDPRTCP)})
+	}
+}
+
 func runCorpus() *workerOut {
 	out := newOut()
+	out2 := newOut()
+	stealDone := make(chan struct{})
+	go func() {
+		runSteal(out2)
+		close(stealDone)
+	}()
+	defer func() {
+		<-stealDone
+		out.evals += out2.evals
+		for k, v := range out2.kinds {
+			out.kinds[k] += v
+		}
+		out.fails = append(out.fails, out2.fails...)
+	}()
 	cfg := blastTimeouts(childCfg{Handlers: "DASPRUGT", UDP: true})
 	corpus := []*conv{
 		// regression (fixed by 989fb91): a WebSocket upgrade request followed by one more byte in the same segment
